@@ -385,19 +385,29 @@ def offset_provenance(ctx, s):
     apps = s.calls(fn, names={DEP_APPEND})
     rets = [v for n, k, v in s.return_kinds(fn) if k == "ok"]
     ok = bool(rets)
+    from ..srules import leaf_values as _lv
+    undecided = False
     for v in rets:
         payload = v[2][0] if v[0] == "agg" else v
         src = [x for x in find_values(payload, lambda x: x[0] == "call" and s.nice(x[1]) == DEP_APPEND)]
         if not src:
-            ok = False
+            # the offset handed back through a small result value of a helper (Stored(offset)): what flowed into it
+            for l in (_lv(an, payload) or []):
+                src += [x for x in find_values(l, lambda x: x[0] == "call" and s.nice(x[1]) == DEP_APPEND)]
+        if not src:
+            if contains_value(payload, lambda x: x[0] in ("phi", "proj")):
+                undecided = True        # a joined value whose sources were not resolved: not decided
+            else:
+                ok = False
             continue
         # the append whose closure copies the event (its max_len is the event's length)
         for c in src:
             if not contains_value(c[2][1], lambda x: x[0] == "call" and x[1].rsplit("::", 1)[-1] == "len"):
                 ok = False
-    s.add("S-REL", fn, "offset-provenance", "Ok(offset)", fn.sp, PROVED if ok else VIOLATION,
-          "the returned offset is the value returned by the append of the event bytes" if ok else
-          "the returned offset is not the append's return value for the event")
+    s.add("S-REL", fn, "offset-provenance", "Ok(offset)", fn.sp, VIOLATION if not ok else (UNDECIDED if undecided else PROVED),
+          "the returned offset is the value returned by the append of the event bytes" if (ok and not undecided) else
+          ("the returned offset is not the append's return value for the event" if not ok else
+           "the returned offset is a joined value whose sources were not resolved: not decided"))
     # alignment padding arithmetic
     for o in ctx.E.obligations(fn, ("arith",)):
         ctx.E.decide(fn, o)
